@@ -25,7 +25,10 @@ def wrong_values(node):
         return [(1.0,), "ab"]
     import decimal
 
-    return ["abc", complex(1.0, 1.0), decimal.Decimal("1.5"), None, [1.0]]
+    import numpy as np
+
+    return ["abc", complex(1.0, 1.0), decimal.Decimal("1.5"), None, [1.0], np.str_("abc"), np.complex128(1 + 1j),
+            np.datetime64("2020-01-01")]
 
 
 def failing_nodes(spec):
@@ -180,11 +183,16 @@ def _tree(task):
     d = S.depth(spec)
     n = (3 if d <= 2 else 2) if tier == "quick" else (4 if d <= 2 else 3)
     cap = 4 if tier == "quick" or d >= 3 else 5
+    if any(k in n for _, _, n in S.node_ids(spec) for k in ("uf", "of")):
+        cap = 10  # (data below and above the range must be in the menu for the flow slots to be on the path at all)
+        n = min(n, 2) if tier == "quick" else n
     recs = A.records(spec, "core", cap=cap)
     evs = [(r, 1.0) for r in recs]
     nodes = failing_nodes(spec)
     for nid, node in nodes:
-        faults = [("raise", None)] + [("wrong", v) for v in wrong_values(node)[: (3 if tier == "quick" else 5)]]
+        wv = wrong_values(node)
+        # (numpy scalars that are not real numbers are wrong types too; two of them even in the quick tier)
+        faults = [("raise", None)] + [("wrong", v) for v in (wv[:3] + wv[5:7] if tier == "quick" else wv)]
         for mode, val in faults:
             for k in range(1, n + 1):
                 for seq in itertools.product(range(len(evs)), repeat=k):
